@@ -49,7 +49,8 @@ def plan(tier, seed):
                            sym="x on the reduced-precision grid: %d inputs with <= %d mantissa bits (symbolic index)" % (len(sub), g), covers=["last grid point explored"]))
     stxt = CV.SCALAR_PRELUDE
     for name in RT:
-        use = spts if name != "PQ" else CV.grid(3 if thorough else 1)
+        # sRGB's round trip composes a division with two powf calls and a fused multiply-add: ~3 s of SAT time per input
+        use = (CV.grid(3 if thorough else 1) if name == "PQ" else (CV.grid(6 if thorough else 3) if name == "SRGB" else spts))
         ch = 2048 if name != "PQ" else 16
         for c in range(0, len(use), ch):
             sub = use[c:c + ch]
